@@ -162,6 +162,33 @@ Theorem C20_each_object_put_at_most_once :
 Proof. split; [apply forallb_Forall; vm_compute; reflexivity|split; [reflexivity|apply forallb_Forall; vm_compute; reflexivity]]. Qed.
 Print Assumptions C20_each_object_put_at_most_once.
 
+(* ---- every Put in a pool entry point (calls inside deferred closures and function literals
+        included, in source order) comes after a Reset of the object since the previous Put - except
+        where the committed list says the cleaning happens on acquisition instead ---- *)
+Definition cleaned_on_acquisition : list (string * string) := [
+  ("erpc.peer.putContext", "handler contexts are cleaned by getContext (Get, clean, reInit: C20_pool_sites_reset_in_order), putContext only returns them")
+].
+Fixpoint puts_guarded (seen : bool) (l : list string) : bool :=
+  match l with
+  | [] => true
+  | x :: r => if String.eqb x "Put" then seen && puts_guarded false r
+              else puts_guarded (seen || String.eqb x "Reset") r
+  end.
+Definition site_puts_ok (s : string * list string) : bool :=
+  existsb (fun e => String.eqb (fst e) (fst s)) cleaned_on_acquisition || puts_guarded false (snd s).
+
+Theorem C20_every_put_follows_a_reset : Forall (fun s => site_puts_ok s = true) c20_pool_sites.
+Proof. apply forallb_Forall. vm_compute. reflexivity. Qed.
+Print Assumptions C20_every_put_follows_a_reset.
+
+(* the rule rejects an entry point that returns a dirtied object on an error path
+   (GetMessage putting the message back from a deferred recover: seeded change C20-r6m2) *)
+Example C20_put_without_reset_rejected :
+  site_puts_ok ("socket.GetMessage", ["Get"; "recover"; "Put"; "panic"; "doSetting"]) = false /\
+  site_puts_ok ("socket.GetMessage", ["Get"; "doSetting"]) = true /\
+  site_puts_ok ("socket.PutMessage", ["Reset"; "Put"; "Put"]) = false.
+Proof. vm_compute. repeat split. Qed.
+
 (* ---- no function hands its caller a value read out of an object it has just returned to the pool
         (v.B, v.Bytes(), v[i:j] ... with Put(v) on the same path, deferred Puts included): the pool may give
         the object to another goroutine at once, whose writes would then show through the returned value ---- *)
